@@ -54,3 +54,199 @@ pub fn all() -> Vec<Prop> {
         Prop { id: "C20", run: c20::run, replay: c20::replay },
     ]
 }
+
+// ---------------------------------------------------------------------------
+// libFuzzer entry (harness/fuzz): bytes -> Src -> case -> oracle
+
+use crate::engine::{Src, Stats};
+use std::sync::OnceLock;
+
+struct FuzzCtx {
+    prop: String,
+    ctx: Ctx,
+    out: Option<String>,
+}
+
+fn fuzz_ctx() -> &'static FuzzCtx {
+    static C: OnceLock<FuzzCtx> = OnceLock::new();
+    C.get_or_init(|| {
+        let prop = std::env::var("HV_FUZZ_PROP").unwrap_or_else(|_| "C01".into()).to_uppercase();
+        let id: &'static str = Box::leak(prop.clone().into_boxed_str());
+        crate::engine::install_panic_hook();
+        FuzzCtx { prop, ctx: Ctx::new(id, crate::engine::Tier::Thorough, 0), out: std::env::var("HV_FUZZ_OUT").ok() }
+    })
+}
+
+fn fuzz_fail(fc: &FuzzCtx, case: Value, what: String) -> ! {
+    if let Some(out) = &fc.out {
+        let _ = std::fs::write(
+            out,
+            serde_json::to_string_pretty(&serde_json::json!({"property": fc.prop, "case": case, "what": what})).unwrap(),
+        );
+    }
+    eprintln!("HV-FUZZ-VIOLATION property={} {}", fc.prop, what);
+    std::process::abort();
+}
+
+/// Decode a choice sequence with the property's generator and run its oracle.
+pub fn check_bytes(ctx: &Ctx, data: &[u8]) -> Result<(), (Value, String)> {
+    let mut s = Src::new(data);
+    let mut st = Stats::default();
+    macro_rules! go {
+        ($decode:expr, $check:expr) => {{
+            let case = $decode(&mut s);
+            let r = crate::engine::guarded(|| $check(&case, &mut st)).unwrap_or_else(Err);
+            r.map_err(|what| (serde_json::to_value(&case).unwrap_or(Value::Null), what))
+        }};
+    }
+    match ctx.id.as_str() {
+        "C01" => go!(c01::decode_random, c01::oracle),
+        "C02" => {
+            let kf = c02::active_switches(ctx);
+            go!(c02::decode, |c: &crate::gen::cases::TreeCase, st: &mut Stats| c02::check_with(c, &kf, st))
+        },
+        "C03" => {
+            if data.first().map(|b| b & 1 == 0).unwrap_or(true) {
+                go!(c03::decode_random, c03::check)
+            } else {
+                go!(c03::decode_tree, c03::check_tree)
+            }
+        },
+        "C04" => go!(c04::decode, c04::check),
+        "C05" => go!(c05::decode, c05::check),
+        "C06" => go!(c06::decode, c06::check),
+        "C07" => go!(c07::decode, c07::check),
+        "C08" => go!(c08::decode, c08::check),
+        "C09" => go!(c09::decode_random, c09::check),
+        "C13" => go!(c13::decode, c13::oracle),
+        "C15" => go!(c15::decode, c15::check),
+        "C16" => go!(c16::decode, c16::check),
+        "C17" => go!(c17::decode, c17::check),
+        "C18" => go!(c18::decode, c18::check),
+        "C19" => {
+            let kf = c02::active_switches(ctx);
+            go!(c19::decode, |c: &crate::gen::cases::TreeCase, st: &mut Stats| c19::check_with(&kf, c, st))
+        },
+        "C20" => go!(c20::decode, c20::check),
+        other => Err((Value::Null, format!("no byte-level dispatch for {other}"))),
+    }
+}
+
+pub const FUZZ_PROPS: &[&str] = &[
+    "C01", "C02", "C03", "C04", "C05", "C06", "C07", "C08", "C09", "C13", "C15", "C16", "C17", "C18", "C19", "C20",
+];
+
+/// libFuzzer entry point.
+pub fn fuzz_one(data: &[u8]) {
+    let fc = fuzz_ctx();
+    if let Err((case, what)) = check_bytes(&fc.ctx, data) {
+        fuzz_fail(fc, case, what);
+    }
+}
+
+/// Thorough tier: coverage-guided campaign (cargo-fuzz / libFuzzer, ASan on) over the
+/// same decoder and oracle; a crash is re-checked in-process before it is reported.
+pub fn run_fuzz(ctx: &Ctx, rep: &mut Report) {
+    use std::process::Command;
+    if !FUZZ_PROPS.contains(&ctx.id.as_str()) {
+        return;
+    }
+    let root = crate::engine::verif_root();
+    let harness = root.join("harness");
+    let tag = format!("{}-{}-{}", ctx.id, ctx.seed, std::process::id());
+    let corpus = harness.join("fuzz").join("corpus").join(&tag);
+    let out = harness.join("fuzz").join(format!("out-{tag}.json"));
+    let _ = std::fs::remove_dir_all(&corpus);
+    let _ = std::fs::create_dir_all(&corpus);
+    // seed corpus: choice sequences from the proptest RNG (so that libFuzzer starts at full length)
+    {
+        use proptest::test_runner::{RngAlgorithm, TestRng};
+        use proptest::prelude::RngCore;
+        let mut seed = [0u8; 32];
+        seed[..8].copy_from_slice(&ctx.seed.to_le_bytes());
+        seed[8] = 0xF2;
+        let mut rng = TestRng::from_seed(RngAlgorithm::ChaCha, &seed);
+        for i in 0..64 {
+            let len = 16 + (rng.next_u32() as usize % 1200);
+            let mut b = vec![0u8; len];
+            rng.fill_bytes(&mut b);
+            let _ = std::fs::write(corpus.join(format!("seed-{i}")), b);
+        }
+    }
+    let runs: u64 = std::env::var("HV_FUZZ_RUNS").ok().and_then(|s| s.parse().ok()).unwrap_or(400_000);
+    let jobs = 16;
+    let status = Command::new("cargo")
+        .current_dir(&harness)
+        .args(["+nightly", "fuzz", "run", "props"])
+        .arg(&corpus)
+        .arg("--")
+        .arg(format!("-runs={runs}"))
+        .arg(format!("-seed={}", ctx.seed.max(1)))
+        .args(["-len_control=0", "-max_len=1500", "-print_final_stats=1", "-timeout=60"])
+        .arg(format!("-jobs={jobs}"))
+        .arg(format!("-workers={jobs}"))
+        .env("HV_FUZZ_PROP", &ctx.id)
+        .env("HV_FUZZ_OUT", &out)
+        .env("VERIF_ROOT", &root)
+        .env("CARGO_NET_OFFLINE", "true")
+        .env("RUSTFLAGS", "--cfg servo_html5ever_verif")
+        .stdout(std::process::Stdio::null())
+        .stderr(std::process::Stdio::null())
+        .status();
+    // collect executions from the job logs (fuzz-<n>.log in the harness directory)
+    let mut execs = 0u64;
+    for j in 0..jobs {
+        let lp = harness.join(format!("fuzz-{j}.log"));
+        if let Ok(txt) = std::fs::read_to_string(&lp) {
+            for l in txt.lines() {
+                if let Some(v) = l.strip_prefix("stat::number_of_executed_units:") {
+                    execs += v.trim().parse::<u64>().unwrap_or(0);
+                }
+            }
+        }
+        let _ = std::fs::remove_file(&lp);
+    }
+    rep.stats.evals += execs;
+    rep.stats.label_n("libFuzzer executions", execs);
+    rep.rule.push_str(" Thorough tier additionally: a libFuzzer campaign (cargo-fuzz, AddressSanitizer and debug assertions on, 16 jobs, fixed -runs, -seed=VERIF_SEED, -len_control=0, seed corpus of 64 random choice sequences) over the same decoder and oracle; a crash is re-checked in-process before it is reported.");
+    let ok = matches!(&status, Ok(s) if s.success());
+    if let Ok(txt) = std::fs::read_to_string(&out) {
+        if let Ok(v) = serde_json::from_str::<Value>(&txt) {
+            let case = v["case"].clone();
+            let prop = all().into_iter().find(|p| p.id == ctx.id).unwrap();
+            let r = crate::engine::guarded(|| (prop.replay)(ctx, &case)).unwrap_or_else(Err);
+            match r {
+                Err(what) => rep.failures.push(crate::engine::Failure { case, what: format!("found by libFuzzer: {what}") }),
+                Ok(()) => rep.inconclusive.push("libFuzzer reported a violation that does not reproduce in-process".into()),
+            }
+        }
+        let _ = std::fs::remove_file(&out);
+    } else if !ok {
+        // crash without an oracle verdict (sanitizer report, abort): look for the artifact
+        let art = harness.join("fuzz").join("artifacts").join("props");
+        let mut found = false;
+        if let Ok(rd) = std::fs::read_dir(&art) {
+            for e in rd.flatten() {
+                if let Ok(bytes) = std::fs::read(e.path()) {
+                    if let Err((case, what)) = check_bytes(ctx, &bytes) {
+                        rep.failures.push(crate::engine::Failure { case, what: format!("found by libFuzzer (artifact): {what}") });
+                        found = true;
+                    } else {
+                        let keep = root.join("replays").join(format!("{}-fuzz-artifact-{}", ctx.id, e.file_name().to_string_lossy()));
+                        let _ = std::fs::copy(e.path(), &keep);
+                        rep.inconclusive.push(format!(
+                            "libFuzzer crashed (sanitizer/abort) on an input that passes in-process; artifact kept at {}",
+                            keep.display()
+                        ));
+                        found = true;
+                    }
+                    let _ = std::fs::remove_file(e.path());
+                }
+            }
+        }
+        if !found {
+            rep.inconclusive.push(format!("cargo fuzz did not run to completion ({status:?})"));
+        }
+    }
+    let _ = std::fs::remove_dir_all(&corpus);
+}
